@@ -88,6 +88,31 @@ def scenarios(tier):
                         sc['wake_grid'] = WAKES
                         bound = 1 if quick else 2
                     items.append((sc, bound))
+    # a second message submitted right after the n-th bus frame of the first, for every n (both must be accepted and delivered)
+    for (m1, m2) in [(msg(0x10, 'bam2', 0x31, 130), msg(0x10, 'bam2', 0x32, 100)),
+                     (msg(0x10, 'p2p', 0x20, 150), msg(0x10, 'p2p', 0x20, 130)),
+                     (msg(0x10, 'bam2', 0x31, 120), msg(0x10, 'p2p', 0x20, 180)),
+                     (msg(0x10, 'p2p', 0x20, 120), msg(0x11, 'bam1', 255, 70)),
+                     (msg(0x10, 'p2p', 0x20, 130), msg(0x20, 'p2p', 0x10, 150))]:
+        for wins in [(1, 1, 1), (2, 3, 255)]:
+            for base in (LATS if not quick else [1e-3]):
+                for n in range(1, 13):
+                    sc = {'dll': DLL, 'stacks': stacks3(*wins), 'base_lat': base, 'late_ok': True,
+                          'msgs': [m1, dict(m2, after=n, may_refuse=True)]}
+                    items.append((sc, 0))
+    # the application reacts from inside a callback (next message from the EOM-acknowledge report, reply from the delivery)
+    for wins in [(1, 1, 1), (2, 3, 255)]:
+        for base in LATS:
+            ms = [msg(0x10, 'p2p', 0x20, 150),
+                  dict(msg(0x10, 'p2p', 0x20, 130), on={'tag': 'A.ca10', 'kind': 'ack'}, may_refuse=True),
+                  dict(msg(0x20, 'p2p', 0x10, 170), on={'tag': 'B.ca20', 'kind': 'data'}, may_refuse=True),
+                  dict(msg(0x10, 'bam2', 0x44, 100), on={'tag': 'A.ecu', 'kind': 'ack'}, may_refuse=True)]
+            items.append(({'dll': DLL, 'stacks': stacks3(*wins), 'base_lat': base, 'msgs': ms}, 0))
+    # broadcast capacity over the whole life of the sessions: 4 short BAMs, a 5th call after every bus frame
+    small4 = [msg(0x10, 'bam2', 0x10 + i, 70 + 25 * i) for i in range(4)]
+    for n in range(0, 26):
+        probe = dict(msg(0x11, 'bam2', 0x55, 90), probe=True, after=n if n else None)
+        items.append(({'dll': DLL, 'stacks': stacks3(1, 1, 1), 'base_lat': 1e-3, 'late_ok': True, 'msgs': small4 + [probe]}, 0))
     # capacity: 8 (4) own sessions in flight, the 9th (5th) call at every point of the run,
     # with and without an inbound transfer completing meanwhile
     long8 = [msg(0x10, 'p2p', [0x20, 0x30, 0x21][i % 3], 300 + 60 * i) for i in range(8)]
